@@ -95,7 +95,12 @@ def free_param_cases():
               "array-size-via-4-consts": "const int m1 = n + 1; const int m2 = m1; const int m3 = m2; const int m4 = m3 + m1; int la[m4];",
               "array-size-via-const-and-function": "const int m1 = n; const int m2 = rdparam(m1); int la[m2];",
               "array-size-2d-second": "const int m1 = n + 1; const int m2 = m1; int la[2][m2];",
-              "struct-field-array-size": "const int m1 = n + 1; const int m2 = m1; typedef struct { int f[m2]; } lt_t; lt_t lv;"}
+              "struct-field-array-size": "const int m1 = n + 1; const int m2 = m1; typedef struct { int f[m2]; } lt_t; lt_t lv;",
+              "function-local-array-size": "int lf() { int la[n + 1]; la[0] = 1; return la[0]; }",
+              "function-local-array-size-via-const": "const int m1 = n + 1; int lf() { int la[m1]; return 1; }",
+              "function-nested-block-array-size": "void lf() { { { bool lb[n + 2]; lb[0] = true; } } }",
+              "function-parameter-array-size": "int lf(int pa[n + 1]) { return pa[0]; }",
+              "function-local-typedef-array-size": "void lf() { typedef int arr_t[n + 1]; arr_t la; la[0] = 1; }"}
     for nm, td in tdecls.items():
         out.append(("free-parameter:" + nm, xmlgen.simple_model(decl=DECL, params="const int[0,3] n", tdecl=td, system="system P;"), True))
         out.append(("bound-parameter:" + nm, xmlgen.simple_model(decl=DECL, params="const int[0,3] n", tdecl=td, system="P1 = P(2);\nsystem P1;"), False))
@@ -127,6 +132,19 @@ def free_param_cases():
                                                                                        system="\n".join(lines) + "\nsystem %s;" % prev), True))
                 out.append(("bound-parameter-forwarded-" + tag + nm, xmlgen.simple_model(decl=DECL, params="const int[0,3] n", tdecl=td,
                                                                                         system="\n".join(lines) + "\nB1 = %s(2);\nsystem B1;" % prev), False))
+    # named types: the same typedef name declared in several scopes, the computable one first
+    for bad, must in (("g", True), ("rd()", True), ("a[1]", True), ("N", False), ("pure()", False)):
+        two_templates = (xmlgen.HEADER + "<nta><declaration>" + xmlgen.esc(DECL) + "</declaration>"
+                         '<template><name>A</name><declaration>typedef int[0,3] idx_t; idx_t va;</declaration><location id="a0"/><init ref="a0"/></template>'
+                         '<template><name>B</name><declaration>' + xmlgen.esc("typedef int[0,%s + 1] idx_t; idx_t vb;" % bad) +
+                         '</declaration><location id="b0"/><init ref="b0"/></template><system>system A, B;</system></nta>')
+        out.append(("same-typedef-name-in-two-templates:range-bound", two_templates, must))
+        out.append(("local-typedef-shadows-global:range-bound", xmlgen.simple_model(
+            decl=DECL + "typedef int[0,3] idx_t; idx_t gv;", tdecl="typedef int[0,%s + 1] idx_t; idx_t lv;" % bad), must))
+        out.append(("local-typedef-shadows-global:array-size", xmlgen.simple_model(
+            decl=DECL + "typedef int arr_t[2]; arr_t gv;", tdecl="typedef int arr_t[%s + 1]; arr_t lv;" % bad), must))
+        out.append(("function-typedef-shadows-global:scalar-size", xmlgen.simple_model(
+            decl=DECL + "typedef int[0,3] idx_t; idx_t gv; void tf() { typedef int[0,%s + 1] idx_t; idx_t lv; lv = 0; }" % bad), must))
     # a free parameter that is NOT used in an array size is fine
     out.append(("free-parameter:guard-only", xmlgen.simple_model(decl=DECL, params="const int[0,3] n", edges=[("id0", "id0", [("guard", "g < n")])], system="system P;"), False))
     out.append(("free-parameter:range-bound", xmlgen.simple_model(decl=DECL, params="const int[0,3] n", tdecl="int[0, n] lr;", system="system P;"), False))
